@@ -952,6 +952,35 @@ class Account:
         finally:
             self.x = 1
 
+    def withdraw_now(self, amount):
+        self.__dict__["x"] = self.x - amount
+        return self.x
+
+    async def hold_and_schedule(self, how, amount):
+        """While this call is in flight (suspended in its body), a callback of the event loop - registered from within the call, run
+        outside of any task - calls a method of the same object."""
+        loop = asyncio.get_running_loop()
+        outcome = []
+
+        def callback(*_):
+            try:
+                outcome.append("returned {!r}".format(self.withdraw_now(amount)))
+            except BaseException as err:
+                outcome.append("raised " + type(err).__name__)
+
+        if how == "call_soon":
+            loop.call_soon(callback)
+        elif how == "call_later":
+            loop.call_later(0, callback)
+        else:
+            future = loop.create_future()
+            future.add_done_callback(callback)
+            future.set_result(None)
+        for _ in range(5):
+            await asyncio.sleep(0.001)
+        self.__dict__["x"] = 1
+        return outcome[0] if outcome else "callback never ran"
+
     @icontract.require(lambda self: self.x >= 0)
     @icontract.snapshot(lambda self: self.x, name="x")
     @icontract.ensure(lambda self, OLD: self.x == OLD.x)
@@ -1079,6 +1108,25 @@ def run_shared_context(w) -> None:
             if res != base_assign:
                 w.violation("C12/checks-disabled-in-flow-started-during-a-call", "attribute assignment from a {} started while a method of the object is "
                             "in flight gave {}, alone it gives {}".format(how, res, base_assign), {"shared_context": "assign-" + how})
+        # a method called from a callback of the event loop (outside any task) while a call on the same object is suspended
+        async def withdraw_alone():
+            account = mod.Account()
+            try:
+                return "returned {!r}".format(account.withdraw_now(100))
+            except BaseException as err:  # pylint: disable=broad-except
+                return "raised " + type(err).__name__
+
+        base_callback = verdict(withdraw_alone())
+        for how in ("call_soon", "call_later", "add_done_callback"):
+            res = verdict(mod.Account().hold_and_schedule(how, 100))
+            w.count("calls_judged")
+            w.count("calls_overlapping_with_another")
+            w.count("shared_context_schedules")
+            w.case(("event-loop-callback", how))
+            if res != base_callback:
+                w.violation("C12/checks-disabled-in-flow-started-during-a-call", "a method called from an event-loop callback ({}) registered while a "
+                            "call on the same object is in flight gave {}, alone it gives {}".format(how, res, base_callback),
+                            {"shared_context": "callback-" + how})
         for second_tag in sorted(mod.SECOND_CALLS):
             base = verdict(alone(second_tag))
             for first_tag in sorted(mod.FIRST_CALLS):
